@@ -94,7 +94,7 @@ def check(cx):
         # no other caller divides DataType values
         for name in ("div", "rem"):
             for c in K.callers_of(p, "types::DataType::" + name, {fe.id}):
-                cx.verdict(c == fe.id, r2b, "caller:%s<-%s" % (name, c), p.fn(c).where(), "only eval_binary_op divides",
+                cx.verdict(c == fe.id, r2b, "caller:%s<-%s" % (name, c), p.where_of(c), "only eval_binary_op divides",
                            "%s divides DataType values without the evaluator's zero check" % c)
 
     # ---- C16.3 narrow persisted counters ----------------------------------------------------------------------
